@@ -64,6 +64,9 @@ func offsetIDs(ops []Op, off int) {
 
 func (c09) Generate(r *rand.Rand, tier string) (sim.Config, any) {
 	cfg := RandomSimConfig(r)
+	old := vecStyle
+	vecStyle = pickVecStyle(r)
+	defer func() { vecStyle = old }()
 	if cfg.Strategy != "pct" && r.IntN(2) == 0 {
 		cfg.Strategy = "pct"
 		cfg.PCTDepth = 1 + r.IntN(3)
